@@ -8,11 +8,19 @@ Local Open Scope list_scope.
 
 (* ===================================================================== part 1: transactions *)
 
-(* errors that can come out of Transact; the driver's sentinel errors are atoms, the two
-   fmt.Errorf forms of tx.go:155-163 are constructors *)
+(* what a faulty SQL driver may answer: an error of its own, or one of the sentinels that
+   database/sql, sqlx's breaker and applications compare against *)
+Inductive fkind := KBadConn | KConnDone | KTxDone | KCanceled | KDeadline.
+   (* driver.ErrBadConn, sql.ErrConnDone, sql.ErrTxDone, context.Canceled, context.DeadlineExceeded *)
+Inductive fault := FNone | FGen | FKind (k : fkind).
+Definition fails (x : fault) : bool := match x with FNone => false | _ => true end.
+
+(* errors that can come out of Transact; the driver's own errors are atoms per call site, the
+   sentinels are EKind, the two fmt.Errorf forms of tx.go:155-163 are constructors *)
 Inductive err :=
-| EBegin | ECommit | ERollback            (* what the SQL driver returned for Begin/Commit/Rollback *)
-| EExec (i : nat)                         (* what the SQL driver returned for the i-th statement *)
+| EBegin | ECommit | ERollback            (* the driver's own error for Begin/Commit/Rollback *)
+| EExec (i : nat)                         (* the driver's own error for the i-th statement *)
+| EKind (k : fkind)                       (* a sentinel returned by the driver, at whatever call *)
 | EBody (n : nat)                         (* an error made up by the transaction body *)
 | EUnavailable                            (* breaker.ErrServiceUnavailable *)
 | EJoin (e r : err)                       (* "事务失败了：%s，回滚也失败了：%w" e r        tx.go:161 *)
@@ -20,75 +28,137 @@ Inductive err :=
 | EPanicJoin (p : nat) (r : err)          (* "事务发生恐慌：%v，回滚也失败了：%w" p r     tx.go:155 *)
 | EOther.                                 (* anything else (never produced by the model) *)
 
-(* driver faults: Begin fails?, Commit fails?, Rollback fails? *)
-Record faults := mkfaults { f_begin : bool; f_commit : bool; f_rollback : bool }.
+(* the error value a call site hands back for fault x *)
+Definition err_at (atom : err) (x : fault) : err := match x with FKind k => EKind k | _ => atom end.
 
-(* calls reaching the SQL driver, with whether the driver answered without error *)
+(* driver faults at Begin (n_begin = for how many consecutive attempts), Commit, Rollback *)
+Record faults := mkfaults { x_begin : fault; n_begin : nat; x_commit : fault; x_rollback : fault }.
+Definition no_faults : faults := mkfaults FNone 0 FNone FNone.
+
+(* calls reaching the SQL driver, with whether the driver answered without error;
+   Exec i = the i-th statement of the body (Exec, prepared Exec or Query) *)
 Inductive call := Begin (ok : bool) | Exec (i : nat) (ok : bool) | Commit (ok : bool) | Rollback (ok : bool).
 
-(* the transaction body fn(ctx, tx) as a script: statements tx.Exec(...) in order, each of which the
-   driver may fail, and the body's reaction to a failed statement; then the final outcome *)
+(* database/sql, DB.BeginTx -> DB.retry (sql.go:1566-1576): the driver's Begin is attempted again while
+   it answers driver.ErrBadConn, 3 attempts in all (2 on cached-or-new connections, 1 on a new one);
+   any other error is final at once. The Begin calls seen by the driver and whether one succeeded. *)
+Definition begin_calls (f : faults) : list call * bool :=
+  match x_begin f with
+  | FNone => ([Begin true], true)
+  | FKind KBadConn =>
+      if Nat.ltb (n_begin f) 3 then (repeat (Begin false) (n_begin f) ++ [Begin true], true)
+      else (repeat (Begin false) 3, false)
+  | _ => ([Begin false], false)
+  end.
+Definition f_begin (f : faults) : bool := negb (snd (begin_calls f)).      (* db.Begin() returns an error *)
+Definition f_commit (f : faults) : bool := fails (x_commit f).
+Definition f_rollback (f : faults) : bool := fails (x_rollback f).
+Definition e_begin (f : faults) : err := err_at EBegin (x_begin f).
+Definition e_commit (f : faults) : err := err_at ECommit (x_commit f).
+Definition e_rollback (f : faults) : err := err_at ERollback (x_rollback f).
+
+(* the transaction body fn(ctx, tx) as a script: statements in order (tx.Exec, tx.Prepare+stmt.Exec,
+   tx.QueryRow), each of which the driver may fail, and the body's reaction to a statement that
+   reported an error; then the final outcome *)
+Inductive sop := SExec | SPrepExec | SQuery.
 Inductive react := RReturn | RIgnore | RPanic (p : nat).
 Inductive outcome := ONil | OErr (e : err) | OPanic (p : nat).
-Record stmt := mkstmt { s_fail : bool; s_react : react }.
+Record stmt := mkstmt { s_op : sop; s_fault : fault; s_react : react }.
+Definition s_fail (s : stmt) : bool := fails (s_fault s).
 Record body := mkbody { b_stmts : list stmt; b_final : outcome }.
 
-(* running fn: the Exec calls it issues (numbered from i) and how it ends *)
-Fixpoint run_stmts (i : nat) (ss : list stmt) (final : outcome) : outcome * list call :=
-  match ss with
-  | [] => (final, [])
-  | s :: r =>
-      if s_fail s then
-        match s_react s with
-        | RReturn => (OErr (EExec i), [Exec i false])
-        | RPanic p => (OPanic p, [Exec i false])
-        | RIgnore => let (o, cs) := run_stmts (S i) r final in (o, Exec i false :: cs)
+(* global switches of lib/store/sqlx/stmt.go: logSQL, logSlowSQL (DisableStmtLog clears the first,
+   DisableLog both) and whether the statement took longer than slowThreshold *)
+Record switches := mkswitches { sw_log_sql : bool; sw_log_slow : bool; sw_is_slow : bool }.
+
+(* newGuard, stmt.go:139-145: a real guard iff one of the two log switches is on *)
+Definition real_guard (sw : switches) : bool := sw_log_sql sw || sw_log_slow sw.
+
+(* exec / execStmt / query / queryStmt, stmt.go:36-94, all of one shape:
+     guard := newGuard(cmd); if err := guard.start(q, args...); err != nil { return err }   (no args: nil)
+     result, err := conn.XxxContext(ctx, ...); guard.finish(ctx, err); return result, err
+   finish only logs (real guard) or does nothing (nil guard): what the driver answered reaches the caller *)
+Definition stmt_result (sw : switches) (op : sop) (drv : option err) : option err :=
+  if real_guard sw then
+    (if sw_is_slow sw then drv (* Slowf *) else if sw_log_sql sw then drv (* Infof *) else drv)
+  else drv.
+
+Section WithSwitches.
+  Variable sw : switches.
+
+  (* what the driver answers to statement i *)
+  Definition drv_answer (i : nat) (s : stmt) : option err :=
+    if s_fail s then Some (err_at (EExec i) (s_fault s)) else None.
+
+  (* running fn: the statements it issues (numbered from i) and how it ends *)
+  Fixpoint run_stmts (i : nat) (ss : list stmt) (final : outcome) : outcome * list call :=
+    match ss with
+    | [] => (final, [])
+    | s :: r =>
+        match stmt_result sw (s_op s) (drv_answer i s) with
+        | Some e =>
+            match s_react s with
+            | RReturn => (OErr e, [Exec i (negb (s_fail s))])
+            | RPanic p => (OPanic p, [Exec i (negb (s_fail s))])
+            | RIgnore => let (o, cs) := run_stmts (S i) r final in (o, Exec i (negb (s_fail s)) :: cs)
+            end
+        | None => let (o, cs) := run_stmts (S i) r final in (o, Exec i (negb (s_fail s)) :: cs)
         end
-      else let (o, cs) := run_stmts (S i) r final in (o, Exec i true :: cs)
-  end.
-Definition run_body (b : body) : outcome * list call := run_stmts 0 (b_stmts b) (b_final b).
-
-(* transactOnConn, tx.go:145-169.
-     tx, err = b(conn); if err != nil { return }                       147-150
-     defer func() {                                                    152
-       if p := recover(); p != nil {                                   153
-         if e := tx.Rollback(); e != nil { err = Errorf(p, e) }        154-155
-         else { err = Errorf(p) }                                      156-157
-       } else if err != nil {                                          159
-         if e := tx.Rollback(); e != nil { err = Errorf(err, e) }      160-162
-       } else { err = tx.Commit() }                                    164-165
-     }()
-     return fn(ctx, tx)                                                168            *)
-Definition transact_on_conn (f : faults) (b : body) : option err * list call :=
-  if f_begin f then (Some EBegin, [Begin false])
-  else
-    let (o, cs) := run_body b in
-    match o with
-    | OPanic p =>
-        if f_rollback f then (Some (EPanicJoin p ERollback), Begin true :: cs ++ [Rollback false])
-        else (Some (EPanic p), Begin true :: cs ++ [Rollback true])
-    | OErr e =>
-        if f_rollback f then (Some (EJoin e ERollback), Begin true :: cs ++ [Rollback false])
-        else (Some e, Begin true :: cs ++ [Rollback true])
-    | ONil =>
-        if f_commit f then (Some ECommit, Begin true :: cs ++ [Commit false])
-        else (None, Begin true :: cs ++ [Commit true])
     end.
+  Definition run_body (b : body) : outcome * list call := run_stmts 0 (b_stmts b) (b_final b).
 
-(* transact, tx.go:135-143: conn, err := db.provider(); NewConnFromDB's provider cannot fail *)
-Definition transact (f : faults) (b : body) : option err * list call := transact_on_conn f b.
+  (* transactOnConn, tx.go:145-169.
+       tx, err = b(conn); if err != nil { return }                       147-150
+       defer func() {                                                    152
+         if p := recover(); p != nil {                                   153
+           if e := tx.Rollback(); e != nil { err = Errorf(p, e) }        154-155
+           else { err = Errorf(p) }                                      156-157
+         } else if err != nil {                                          159
+           if e := tx.Rollback(); e != nil { err = Errorf(err, e) }      160-162
+         } else { err = tx.Commit() }                                    164-165
+       }()
+       return fn(ctx, tx)                                                168            *)
+  Definition transact_on_conn (f : faults) (b : body) : option err * list call :=
+    if f_begin f then (Some (e_begin f), fst (begin_calls f))
+    else
+      let (o, cs) := run_body b in
+      match o with
+      | OPanic p =>
+          if f_rollback f then (Some (EPanicJoin p (e_rollback f)), fst (begin_calls f) ++ cs ++ [Rollback false])
+          else (Some (EPanic p), fst (begin_calls f) ++ cs ++ [Rollback true])
+      | OErr e =>
+          if f_rollback f then (Some (EJoin e (e_rollback f)), fst (begin_calls f) ++ cs ++ [Rollback false])
+          else (Some e, fst (begin_calls f) ++ cs ++ [Rollback true])
+      | ONil =>
+          if f_commit f then (Some (e_commit f), fst (begin_calls f) ++ cs ++ [Commit false])
+          else (None, fst (begin_calls f) ++ cs ++ [Commit true])
+      end.
 
-Section Breaker.
-  (* googleBreaker.doReq (lib/breaker/googlebreaker.go:60-82): either the request is rejected
-     (ErrServiceUnavailable, req not run) or req runs and ITS error is returned unchanged;
-     `acceptable` only feeds the breaker's statistics. Whether a call is let through depends on the
-     breaker's history and a random draw: an explicit input. *)
-  Variable passed : bool.
+  (* how many times fn is entered: tx.go:168 is its only call site, reached after a successful begin *)
+  Definition runs_on_conn (f : faults) : nat := if f_begin f then 0 else 1.
 
-  (* commonConn.TransactCtx, conn.go:263-277 *)
-  Definition transact_ctx (f : faults) (b : body) : option err * list call :=
-    if passed then transact f b else (Some EUnavailable, []).
-End Breaker.
+  (* transact, tx.go:135-143: conn, err := db.provider(); NewConnFromDB's provider cannot fail *)
+  Definition transact (f : faults) (b : body) : option err * list call := transact_on_conn f b.
+  Definition transact_runs (f : faults) : nat := runs_on_conn f.
+
+  Section Breaker.
+    (* googleBreaker.doReq (lib/breaker/googlebreaker.go:60-82): either the request is rejected
+       (ErrServiceUnavailable, req not run) or req runs ONCE and ITS error is returned unchanged;
+       `acceptable` only feeds the breaker's statistics. Whether a call is let through depends on the
+       breaker's history and a random draw: an explicit input. *)
+    Variable passed : bool.
+
+    (* commonConn.TransactCtx, conn.go:263-277 (Transact, 257-261, wraps fn and delegates) *)
+    Definition transact_ctx (f : faults) (b : body) : option err * list call :=
+      if passed then transact f b else (Some EUnavailable, []).
+    Definition transact_ctx_runs (f : faults) : nat := if passed then transact_runs f else 0.
+
+    (* sqlc.CachedConn.TransactCtx, cachedsql.go:225-227: return cc.db.TransactCtx(ctx, fn);
+       CachedConn.Transact, 216-222, wraps fn and delegates to it *)
+    Definition cached_transact_ctx (f : faults) (b : body) : option err * list call := transact_ctx f b.
+    Definition cached_transact_ctx_runs (f : faults) : nat := transact_ctx_runs f.
+  End Breaker.
+End WithSwitches.
 
 (* commonConn.acceptable, conn.go:279-286, errors as small integers (see GenEnv.v):
    0 = nil, 1 = sql.ErrNoRows, 2 = sql.ErrTxDone, 3 = context.Canceled *)
@@ -315,3 +385,4 @@ Definition strict_flag (r : recv) (m : meth) : bool :=
 (* a query issued as the whole body of Transact: the body returns the query's error (or panics with it) *)
 Definition body_of_query (st : result unit) : body :=
   mkbody [] (match st with Ok _ => ONil | Err n => OErr (EBody n) | Panic => OPanic 0 end).
+Definition default_switches : switches := mkswitches true true false.
